@@ -5,6 +5,7 @@ from ..ir import AnalysisBroken, strip_targs, qmatch
 from ..graph import Graph
 from ..symb import feasible_armed_reach, feasible_reach
 from ..inteval import ieval, pin_conditions
+from ..linear import relation
 from ..expr import access_path, path_str, reaching_defs, norm_cond, origins, leaves, defs_in_node
 from .common import strip_casts, short, comparison, once_init, iteration_starts, subtree_through_locals
 
@@ -28,6 +29,7 @@ EXPLANATION = (
 EXPLANATION += ' C18.R2 also requires GetSdkDisabled to return the value the (case-insensitive) boolean reader delivered.'
 ROUND2_EXPLANATION = (' C18.R5 also: every path of MetricCollector::Produce that returns the batch passes the resource assignment. C18.R6: the store of true into the boolean reader\'s out-parameter is unreachable once the whole-string case-insensitive comparison with "true" is pinned to unequal (bounded comparisons count only with a constant bound covering the terminator or a length test). C18.R7: region table over (separator position, token length): a token with a separator is stored for every key / value length, one without is not.')
 ROUND2_EXPLANATION += (' C18.R1 also: service.name is present on every path of Resource::Create (the fallback is applied when it is absent or empty). C18.R8: every strto* / stoul conversion of an environment number uses base 10.')
+ROUND2_EXPLANATION += (" C18.R6 also: no store into the boolean out-parameter is computed from characters of the text. C18.R9: the duration syntax as a table - each unit literal is compared with the whole rest of the input (not a prefix / sub-view), the conversion reached on its equal edge has exactly that unit's period (parsed from the template arguments of the call), all of ns/us/ms/s/m/h are present, and every conversion lies behind result != 0 (no digit, no value). C18.R10: the narrowing store of GetUintEnvironmentVariable is behind a bound of the parsed value that folds to exactly 2^32-1.")
 EXPLANATION += ROUND2_EXPLANATION
 NOT_DECIDED = 'exact values for every string; case-insensitive boolean literals beyond the calls made; std::getline tokenisation.'
 
@@ -293,6 +295,20 @@ def rule_r6(ck, prog, rule='C18.R6'):
     out = f.params[1]
     stores = [p for p in g.points if p.f is f and p.n is not None and p.n['k'] == 'binop' and p.n['op'] == '=' and
               strip_casts(f, p.n['lhs']).get('id') == out['id'] and strip_casts(f, p.n['rhs'])['k'] == 'lit' and strip_casts(f, p.n['rhs']).get('v') == 1]
+    # the reader never computes the flag from characters of the text: every store into the out-parameter is a constant (or, in the
+    # table form, an entry of a constant table) - "any other string falls back to false"
+    computed = [p for p in g.points if p.f is f and p.n is not None and p.n['k'] == 'binop' and p.n['op'] in ('=', '|=', '&=', '^=') and
+                strip_casts(f, p.n['lhs']).get('id') == out['id'] and strip_casts(f, p.n['rhs'])['k'] != 'lit' and
+                any(f.nodes[i]['k'] in ('subscript', 'call') and (f.nodes[i]['k'] == 'subscript' or strip_targs(f.nodes[i].get('c', '') or '').rsplit('::', 1)[-1] in
+                    ('operator[]', 'at', 'front', 'back', 'c_str', 'data', 'compare', 'find') + tuple(WHOLE_CI + WHOLE_CS + BOUNDED_CI + BOUNDED_CS))
+                    for i in list(f.subtree(p.n['rhs'])) + [p.n['rhs']])]
+    direct_cmp = [p for p in computed if strip_casts(f, p.n['rhs'])['k'] in ('binop',) and comparison(f, strip_casts(f, p.n['rhs'])['i']) and
+                  any(f.nodes[i]['k'] == 'call' and strip_targs(f.nodes[i].get('c', '') or '').rsplit('::', 1)[-1] in WHOLE_CI for i in f.subtree(p.n['rhs']))]
+    computed = [p for p in computed if p not in direct_cmp]      # `value = (strcasecmp(raw, "true") == 0)` is the whole-string match itself
+    if computed:
+        ck.violation(rule, f, 'flag-is-a-constant-per-spelling', computed[0].n, 'the boolean reader computes the flag from characters of the text instead of storing a constant per recognised spelling: strings other than true / false do not fall back to false')
+    else:
+        ck.holds(rule, f, 'flag-is-a-constant-per-spelling', None, 'every store into the out-parameter is a constant or the whole-string comparison itself')
     if not stores:
         if _bool_table_form(ck, prog, f, g, rd, out, rule):
             return
@@ -641,8 +657,8 @@ def rule_r4(ck, prog, rule='C18.R4'):
             ck.verdict(bool(guarded), rule, f, 'unit-guard@%d' % cp.n['l'], cp.n, 'conversion behind a scaling bound' if guarded else
                        'the conversion of the parsed count to the clock duration is not guarded against overflow: large values wrap to a garbage duration that is accepted')
         return
-    if len(insts) < 6:
-        raise AnalysisBroken('ConvertTimeout: %d instantiations, 6 units expected' % len(insts))
+    if len(insts) < 1:
+        raise AnalysisBroken('ConvertTimeout: no instantiation')
     for cf in insts:
         m = RATIO.search(cf.key.split('ConvertTimeout<', 1)[1].split('>(', 1)[0])
         num, den = (int(m.group(1)), int(m.group(2) or 1)) if m else (1, 1)
@@ -723,14 +739,254 @@ def rule_r2_disabled(ck, prog, rule='C18.R2'):
                'OTEL_SDK_DISABLED is read by GetBoolEnvironmentVariable; the result is true exactly for (exists, true)' if ok else why)
 
 
+UNIT_TICKS = {'ns': (1, 10**9), 'us': (1, 10**6), 'ms': (1, 1000), 's': (1, 1), 'm': (60, 1), 'h': (3600, 1),
+              # no unit: seconds. The specification says milliseconds; the code documents seconds as its (kept) behaviour, and
+              # the property names only the unit spellings - the table records today's documented default.
+              '': (1, 1)}
+
+
+def _ratio_of(text):
+    """period of the std::chrono::duration named in the template argument list of a call key (`name<ARGS>(params)`), as (num, den)"""
+    i = text.find('<')
+    j = text.find('(')
+    if i < 0 or (0 <= j < i):
+        return None
+    depth, k = 0, i
+    while k < len(text):
+        if text[k] == '<':
+            depth += 1
+        elif text[k] == '>':
+            depth -= 1
+            if depth == 0:
+                break
+        k += 1
+    targs = text[i + 1:k]
+    # duration_cast<To, Rep, Period>(from): the source unit is the last `duration<..>` of the list; ConvertTimeout<Unit>: the only one
+    parts = [m for m in re.finditer(r'std::chrono::duration<', targs)]
+    if not parts:
+        return None
+    m = re.search(r'std::ratio<\s*(\d+)\s*(?:,\s*(\d+)\s*)?>', targs[parts[-1].start():] if len(parts) == 1 else targs)
+    if len(parts) > 1:
+        return None
+    if m:
+        return (int(m.group(1)), int(m.group(2) or 1))
+    return (1, 1)
+
+
+def rule_r9(ck, prog, rule='C18.R9'):
+    """duration syntax as a table: each unit spelling is compared with the *whole* rest of the input and converts with the period
+    of that unit; a conversion is reached only when at least one non-zero digit was read (the `result != 0` gate is what rejects
+    inputs without digits)"""
+    f = prog.function('sdk::common::GetTimeoutFromString')
+    g = Graph(prog, f, inline=None, sync_lambdas=False)
+    rd = reaching_defs(g)
+    convs = [p for p in g.points if p.n is not None and p.n['k'] == 'call' and
+             (strip_targs(p.n.get('c', '')).endswith('common::ConvertTimeout') or strip_targs(p.n.get('c', '')).endswith('duration_cast'))]
+    cmps = []
+    for n in f.nodes:
+        if n['k'] == 'call' and n.get('op') in ('==', '!=') and len(n.get('args', [])) == 2:
+            lits = sorted({(a, f.nodes[i].get('s')) for a in n['args'] for i in list(f.subtree(a)) + [a] if f.nodes[i]['k'] == 'str'})
+            if len(lits) == 1:
+                other = [a for a in n['args'] if a != lits[0][0]][0]
+                cmps.append((n, lits[0][1], other, 'view'))
+        elif n['k'] == 'call' and strip_targs(n.get('c', '') or '').rsplit('::', 1)[-1] == 'strcmp' and len(n.get('args', [])) == 2:
+            lits = sorted({(a, f.nodes[i].get('s')) for a in n['args'] for i in list(f.subtree(a)) + [a] if f.nodes[i]['k'] == 'str'})
+            if len(lits) == 1:
+                cmps.append((n, lits[0][1], [a for a in n['args'] if a != lits[0][0]][0], 'strcmp'))
+    for n in f.nodes:
+        # `unit.empty()` is the comparison with ""
+        if n['k'] == 'call' and strip_targs(n.get('c', '') or '').rsplit('::', 1)[-1] == 'empty' and n.get('obj') is not None and not n.get('args') and \
+                'string_view' in (f.nodes[n['obj']].get('t') or '') + (strip_casts(f, n['obj']).get('t') or ''):
+            cmps.append((n, '', n['obj'], 'empty'))
+    if len(cmps) < 3 or not convs:
+        ck.inconclusive(rule, f, 'unit-table', None, 'unit comparisons with string literals / conversions not recognised (%d comparisons, %d conversions)' % (len(cmps), len(convs)))
+        return
+    pm = f.parent_map()
+    cmp_ids = set()
+
+    def cond_of(n):
+        # the condition node whose truth means "equal": the == call itself, or the enclosing `strcmp(..) == 0` / `!strcmp(..)`
+        if strip_targs(n.get('c', '') or '').rsplit('::', 1)[-1] == 'empty':
+            return n['i'], True
+        if n.get('op') in ('==', '!='):
+            return n['i'], (n['op'] == '==')
+        x = n['i']
+        while x in pm and f.nodes[pm[x]]['k'] in ('cast', 'paren'):
+            x = pm[x]
+        if x in pm:
+            par = f.nodes[pm[x]]
+            c = comparison(f, par['i'])
+            if c and c[0] in ('==', '!='):
+                return par['i'], (c[0] == '==')
+            if par['k'] == 'unop' and par['op'] == '!':
+                return par['i'], True
+        return n['i'], False
+    seen_units = set()
+    for (n, lit, other, how) in cmps:
+        ci, eq_truth = cond_of(n)
+        cmp_ids.add(ci)
+    for (n, lit, other, how) in sorted(cmps, key=lambda x: x[0]['l']):
+        ci, eq_truth = cond_of(n)
+        site = 'unit-table:"%s"' % lit
+        seen_units.add(lit)
+        if lit not in UNIT_TICKS:
+            ck.violation(rule, f, site, n, 'the duration parser accepts the unit spelling "%s", which is not one of the documented ns/us/ms/s/m/h' % lit)
+            continue
+        # whole-string comparison: the compared text is the view / pointer of everything left after the digits
+        on = strip_casts(f, other)
+        while on['k'] == 'construct' and on.get('copymove') and on.get('args'):
+            on = strip_casts(f, on['args'][0])
+        whole = None
+        if on['k'] == 'ref' and on.get('sk') in ('local', 'param'):
+            init = once_init(f, on['i'])
+            if init is on or (init['k'] == 'construct' and 'const char *' in (init.get('ck') or '') and len(init.get('args', [])) == 1) or init['k'] == 'ref':
+                whole = True
+            else:
+                whole = None
+        elif on['k'] == 'call' and strip_targs(on.get('c', '') or '').rsplit('::', 1)[-1] in ('substr', 'first', 'remove_suffix'):
+            whole = False
+        if whole is False:
+            ck.violation(rule, f, site, n, 'the unit "%s" is compared with a part of the remaining text only (%s): inputs with trailing garbage after the unit are accepted' % (lit, strip_targs(on['c']).rsplit('::', 1)[-1]))
+            continue
+        if whole is None:
+            ck.inconclusive(rule, f, site, n, 'what is compared with "%s" is not recognised as the whole rest of the input' % lit)
+            continue
+        # the conversion reached over the "equal" edge, before any other unit comparison
+        start = [q for p_ in g.points for (q, lab) in p_.succ if lab and isinstance(lab[0], int) and lab[1] is f and
+                 norm_cond(f, lab[0])[0] == norm_cond(f, ci)[0] and ((lab[2] if norm_cond(f, lab[0])[1] == norm_cond(f, ci)[1] else not lab[2]) is eq_truth)]
+        if not start:
+            ck.inconclusive(rule, f, site, n, 'the branch taken when the unit is "%s" was not found' % lit)
+            continue
+        others = [p_ for p_ in g.points if p_.n is not None and p_.f is f and p_.n['i'] in cmp_ids and p_.n['i'] != ci]
+        r = g.reachable_from(start, avoid=others)
+        got = [c for c in convs if c.id in r or c in start]
+        ratios = {_ratio_of(c.n.get('ck') or '') for c in got}
+        if len(got) == 0 or None in ratios:
+            ck.inconclusive(rule, f, site, n, 'no conversion with a recognisable period is reached when the unit is "%s"' % lit)
+            continue
+        want = UNIT_TICKS[lit]
+        ok = ratios == {want}
+        ck.verdict(ok, rule, f, site, got[0].n, '"%s" converts with period %d/%d s' % (lit, want[0], want[1]) if ok else
+                   'a duration written with the unit "%s" is converted with period %s instead of %d/%d s: the configured timeout is off by that factor' %
+                   (lit, ', '.join('%d/%d' % x for x in sorted(ratios)), want[0], want[1]))
+    missing = sorted(set(UNIT_TICKS) - seen_units)
+    if missing == ['']:
+        # the empty unit may be recognised by an idiom other than a comparison with "" (a test of the terminator, a fall-through)
+        ck.inconclusive(rule, f, 'unit-table:complete', None, 'no comparison with the empty unit was recognised (another idiom may handle it)')
+        missing = None
+    if missing is not None:
+        ck.verdict(not missing, rule, f, 'unit-table:complete', None, 'all of ns/us/ms/s/m/h and the empty unit are recognised' if not missing else
+                   'the documented unit spelling(s) %s are not recognised by the duration parser' % ', '.join('"%s"' % x for x in missing))
+    # at least one digit: every conversion is behind "result != 0"
+    acc = [p for p in g.points if p.n is not None and p.n['k'] == 'binop' and p.n['op'] in ('=', '+=') and p.f is f and
+           any(f.nodes[i]['k'] == 'binop' and f.nodes[i]['op'] == '*' for i in f.subtree(p.n['i']))]
+    if not acc:
+        ck.inconclusive(rule, f, 'conversion-needs-a-digit', None, 'digit accumulation not found')
+        return
+    vid = strip_casts(f, acc[0].n['lhs']).get('id')
+    vname = strip_casts(f, acc[0].n['lhs']).get('name')
+
+    def nonzero_edge(a, b, lab):
+        if not lab or not isinstance(lab[0], int) or lab[1] is not f:
+            return False
+        rel = relation(g, rd, f, lab[0], a.ctx, lab[2])
+        if not rel:
+            return False
+        key1 = frozenset({('local:%s:%s' % (vid, vname), 1)})
+        key2 = frozenset({('local:%s:%s' % (vid, vname), 1), ('1', -1)})
+        return rel in (('!=0', key1), ('>=0', key2))
+    bad = [c for c in convs if not g.must_pass_edge(c, nonzero_edge)]
+    flags = [n for n in f.nodes if n['k'] == 'declstmt' and any(d['t'] == 'bool' for d in n['decls'])]
+    if bad and flags:
+        ck.inconclusive(rule, f, 'conversion-needs-a-digit', bad[0].n, 'the conversion is not behind "%s != 0"; a boolean local may carry the "digit seen" fact: not decided' % vname)
+    else:
+        ck.verdict(not bad, rule, f, 'conversion-needs-a-digit', (bad or convs)[0].n, 'every conversion is behind "%s != 0": a text without a (non-zero) digit is rejected' % vname if not bad else
+                   'a conversion is reachable with %s == 0, i.e. without any digit read: "ms", "s", "" ... parse successfully as a zero duration instead of falling back to the default' % vname)
+
+
+_TMAX = {'unsigned int': 2**32 - 1, 'uint32_t': 2**32 - 1, 'std::uint32_t': 2**32 - 1, 'int': 2**31 - 1, 'int32_t': 2**31 - 1, 'std::int32_t': 2**31 - 1,
+         'unsigned long': 2**64 - 1, 'unsigned long long': 2**64 - 1, 'long': 2**63 - 1, 'long long': 2**63 - 1, 'unsigned short': 65535, 'short': 32767}
+
+
+def rule_r10(ck, prog, rule='C18.R10'):
+    """unsigned integers within 32 bits, exactly: the narrowing store into the 32-bit out-parameter is behind a bound of the parsed
+    value that equals 2^32-1 (tighter: valid settings are refused; looser or absent: a larger number is truncated into a wrong value)"""
+    f = prog.function('sdk::common::GetUintEnvironmentVariable')
+    g = Graph(prog, f, inline=None, sync_lambdas=False)
+    out = f.params[1]
+    stores = [p for p in g.points if p.f is f and p.n is not None and p.n['k'] == 'binop' and p.n['op'] == '=' and strip_casts(f, p.n['lhs']).get('id') == out['id'] and
+              strip_casts(f, p.n['rhs'])['k'] == 'ref' and strip_casts(f, p.n['rhs']).get('sk') == 'local']
+    wide = [p for p in stores if any(w in (strip_casts(f, p.n['rhs']).get('t') or '') for w in ('long', 'size_t', 'uint64', 'int64'))]
+    if not wide:
+        ck.inconclusive(rule, f, 'narrowing-behind-32-bit-bound', None, 'no store of a wider parsed local into the 32-bit out-parameter found')
+        return
+
+    def const_of(idx):
+        n = strip_casts(f, idx)
+        if 'v' in n and isinstance(n['v'], int):
+            return n['v']
+        if n['k'] == 'call' and strip_targs(n.get('c', '')).startswith('std::numeric_limits::max'):
+            import re
+            m = re.search(r'numeric_limits<([^>]*)>', n.get('ck') or n.get('c') or '')
+            return _TMAX.get(m.group(1).strip()) if m else None
+        return None
+    for sp in wide:
+        vid = strip_casts(f, sp.n['rhs'])['id']
+        bounds = []
+
+        def bound_edge(a, b, lab):
+            if not lab or not isinstance(lab[0], int) or lab[1] is not f:
+                return False
+            core, pol = norm_cond(f, lab[0])
+            c = comparison(f, core)
+            if not c or c[0] not in ('<', '>', '<=', '>='):
+                return False
+            out_ = lab[2] if pol else not lab[2]
+            l, r = strip_casts(f, c[1]), strip_casts(f, c[2])
+            op = c[0]
+            if r.get('id') == vid:
+                # const OP var  ->  var OP' const
+                l, r = r, l
+                op = {'<': '>', '>': '<', '<=': '>=', '>=': '<='}[op]
+                kc = const_of(c[1])
+            elif l.get('id') == vid:
+                kc = const_of(c[2])
+            else:
+                return False
+            if kc is None:
+                bounds.append(None)
+                return True
+            if not out_:
+                op = {'<': '>=', '>': '<=', '<=': '>', '>=': '<'}[op]
+            if op == '<=':
+                bounds.append(kc)
+                return True
+            if op == '<':
+                bounds.append(kc - 1)
+                return True
+            return False
+        guarded = g.must_pass_edge(sp, bound_edge)
+        ks = [b for b in bounds if b is not None]
+        if guarded and None in bounds and not ks:
+            ck.inconclusive(rule, f, 'narrowing-behind-32-bit-bound', sp.n, 'the upper bound of the parsed value does not fold to a constant')
+            continue
+        k = min(ks) if ks else None
+        ok = bool(guarded) and k == 2**32 - 1
+        ck.verdict(ok, rule, f, 'narrowing-behind-32-bit-bound', sp.n, 'the parsed value is stored only when it is <= 4294967295' if ok else
+                   ('the parsed value is narrowed to 32 bits without an upper bound in front: a number above 4294967295 is truncated to a wrong setting instead of falling back to the default' if not guarded or k is None else
+                    ('numbers above %d are refused although they fit in 32 bits' % k if k < 2**32 - 1 else 'numbers up to %d pass the bound and are truncated to 32 bits' % k)))
+
+
 def run(ck, prog):
     ck.doc('C18.R1', 'Merge orientation/schema/constness; Create chain order; service.name fallback; pair split at the first =; service.name always present', 8)
     ck.doc('C18.R2', 'out-parameter typestate of the environment readers and duration helpers; OTEL_SDK_DISABLED through the boolean reader', 13)
     ck.doc('C18.R3', 'errno cleared before every strto* whose errno is read', 2)
     ck.doc('C18.R4', 'digit accumulation bounded; per-unit overflow guard uses the exact tick ratio', 7)
     ck.doc('C18.R5', 'span / log record / metric batch take the provider\'s resource, before a processor sees them; every returned batch carries it', 5)
-    ck.doc('C18.R6', 'boolean spellings: true is stored only behind a whole-string case-insensitive match', 1)
+    ck.doc('C18.R6', 'boolean spellings: true is stored only behind a whole-string case-insensitive match; the flag is never computed from characters of the text', 2)
     ck.doc('C18.R8', 'integer readers parse with base 10', 1)
+    ck.doc('C18.R9', 'duration syntax table: every unit spelling compared with the whole rest of the input and converted with its own period; all documented units present; no conversion without a digit', 9)
+    ck.doc('C18.R10', 'the narrowing store of the unsigned reader is behind the exact 32-bit bound', 1)
     ck.doc('C18.R7', 'key=value lists: every token with a separator is stored for every key/value length (region table)', 1)
     with ck.canary('C18.R2'):
         _canary(ck, prog)
@@ -743,6 +999,8 @@ def run(ck, prog):
     rule_r6(ck, prog)
     rule_r7(ck, prog)
     rule_r8(ck, prog)
+    rule_r9(ck, prog)
+    rule_r10(ck, prog)
     return {}
 
 
